@@ -837,6 +837,46 @@ pub fn families_c14(subjects: &[Subj]) -> Vec<Pair> {
 			}
 		}
 	}
+	// K10b: a key-holding guard must not be convertible BY VALUE into the holds it
+	// wraps (the key would be dropped while the holds live on)
+	{
+		let header = format!(
+			"{PRELUDE}\npub trait HasRaw {{ type Raw; }}\nimpl<T, R> HasRaw for happylock::mutex::Mutex<T, R> {{ type Raw = R; }}\nimpl<T, R> HasRaw for happylock::rwlock::RwLock<T, R> {{ type Raw = R; }}\ntype RawM = <happylock::mutex::ParkingMutex<()> as HasRaw>::Raw;\ntype RawR = <happylock::rwlock::ParkingRwLock<()> as HasRaw>::Raw;\n"
+		);
+		let mref = "MutexRef<'static, i32, RawM>";
+		let rref = "RwLockReadRef<'static, i32, RawR>";
+		let wref = "RwLockWriteRef<'static, i32, RawR>";
+		// (guard type, inner hold type)
+		let guards: Vec<(String, String)> = vec![
+			("MutexGuard<'static, i32, RawM>".into(), mref.into()),
+			("RwLockReadGuard<'static, i32, RawR>".into(), rref.into()),
+			("RwLockWriteGuard<'static, i32, RawR>".into(), wref.into()),
+			(format!("LockGuard<[{mref}; 2]>"), format!("[{mref}; 2]")),
+			(format!("LockGuard<Box<[{mref}]>>"), format!("Box<[{mref}]>")),
+			(format!("LockGuard<({mref}, {wref})>"), format!("({mref}, {wref})")),
+			(format!("LockGuard<Vec<{rref}>>"), format!("Vec<{rref}>")),
+			(format!("PoisonGuard<'static, {mref}>"), mref.into()),
+			(format!("PoisonGuard<'static, {mref}>"), format!("PoisonRef<'static, {mref}>")),
+		];
+		for (g, inner) in &guards {
+			let bounds: Vec<(String, String)> = vec![
+				("IntoIterator".into(), "IntoIterator".into()),
+				("Into<inner>".into(), format!("Into<{inner}>")),
+				("Iterator".into(), "Iterator".into()),
+			];
+			for (bn, b) in bounds {
+				let prog = |bound: &str| format!("{header}fn need<X: {bound}>() {{}}\npub fn probe() {{\n//<<\n    need::<{g}>();\n//>>\n}}\n");
+				v.push(Pair {
+					prop: "C14".into(),
+					family: "K10-guard-converts-by-value-into-its-holds".into(),
+					name: format!("{g}: {bn}"),
+					twin: prog("Sized"),
+					offending: prog(&b),
+					std_offending: None,
+				});
+			}
+		}
+	}
 	// K11: key-less holds through the unsafe trait methods from safe code
 	for (lockname, ctor) in [("Mutex", "Mutex::new(0)"), ("RwLock", "RwLock::new(0)")] {
 		for (what, call) in [
